@@ -24,18 +24,23 @@ structure ScenCls where
   limit : Option Nat                -- `terminate after`, in steps
   termWhen : List Nat               -- `terminate when cond`
   reqAlways : Bool                  -- a (true) `require always` whose evaluation is logged
+  termSimWhen : List Nat := []      -- `terminate simulation when cond`
+  recInit : Bool := false           -- a `record initial` whose evaluation is logged
+  recs : List Nat := []             -- `record` statements (tag of each)
+  recFinal : Bool := false          -- a `record final` whose evaluation is logged
   deriving Inhabited
 
 structure Prog where
   code : Code
   monCls : List (List Stmt)
   scens : List ScenCls              -- class 0 is the top-level scenario
-  termSimWhen : List Nat            -- `terminate simulation when cond` (top level)
-  recInit : Bool
-  recs : Nat
-  recFinal : Bool
   maxSteps : Nat
   deriving Inhabited
+
+/-- the class of the top-level scenario -/
+def Prog.top (P : Prog) : ScenCls := P.scens.getD 0 default
+/-- the top-level scenario's `terminate simulation when` conditions -/
+def Prog.termSimWhen (P : Prog) : List Nat := P.top.termSimWhen
 
 /-- the phases of one iteration of `Simulation._run` -/
 inductive Phase
@@ -57,18 +62,12 @@ def Phase.documented : List Phase :=
   [.scen, .record, .monitors, .retPending, .termSimWhen, .maxSteps, .behaviors, .actions,
    .simStep, .clock, .update]
 
-/-- facts about the code that are regenerated from the source -/
+/-- facts about the code that are regenerated from the source and executed by the model -/
 structure Sem where
   order : List Phase
-  /-- `_addDynamicRequirement` files every requirement-like statement of a scenario started
-      during the simulation under the temporal requirements (so `terminate when` of a
-      sub-scenario is checked like `require`) -/
-  dynReqAsTemporal : Bool
-  /-- `_runMonitors` hands a sub-scenario's `terminate` up as a termination reason -/
-  monTermPropagates : Bool
   deriving Repr, DecidableEq, Inhabited
 
-def Sem.documented : Sem := ⟨Phase.documented, false, false⟩
+def Sem.documented : Sem := ⟨Phase.documented⟩
 
 inductive Term
   | scenarioComplete | terminatedByMonitor | simulationTerminationCondition | timeLimit
@@ -76,7 +75,6 @@ inductive Term
   deriving Repr, DecidableEq, Inhabited
 
 inductive Abort
-  | rejected      -- RejectSimulationException
   | stuck         -- out of fuel
   | error         -- RuntimeError (bad schedule) / construct outside the fragment
   deriving Repr, DecidableEq, Inhabited
@@ -163,16 +161,6 @@ def startSubs (P : Prog) (i : Nat) (subs : List Nat) (st : St) : St :=
   let first := st.insts.length
   (startAll P subs st).modInst i fun x => { x with subs := (List.range subs.length).map (first + ·) }
 
-/-- a dynamic scenario's `terminate when` conditions, evaluated as temporal requirements
-    (only under `Sem.dynReqAsTemporal`): the verdict of an atomic proposition is that of its
-    first evaluation; `true` = reject -/
-def evalReqs (P : Prog) (first : Bool) : List Nat → St → St × Bool
-  | [], st => (st, false)
-  | c :: rest, st =>
-    let v := P.code.cond c st.time
-    let st := st.emit (.cond .termWhen c v)
-    if first && !v then (st, true) else evalReqs P first rest st
-
 /-- the scenario's own `terminate when` conditions; `true` = one of them holds -/
 def evalTermWhen (P : Prog) : List Nat → St → St × Bool
   | [], st => (st, false)
@@ -181,12 +169,10 @@ def evalTermWhen (P : Prog) : List Nat → St → St × Bool
     let st := st.emit (.cond .termWhen c v)
     if v then (st, true) else evalTermWhen P rest st
 
-/-- step (a) of `_step`: the temporal requirements of instance `i`; `true` = reject -/
-def checkReqs (P : Prog) (S : Sem) (i : Nat) (st : St) : St × Bool :=
-  let inst := st.inst i
-  let cls := P.scens.getD inst.cls default
-  let st := if cls.reqAlways then st.emit (.q i) else st
-  if S.dynReqAsTemporal && i != 0 then evalReqs P (inst.elapsed == 0) cls.termWhen st else (st, false)
+/-- step (a) of `_step`: the temporal requirements of instance `i` (the fragment's only
+    requirement is a `require always` that holds; its evaluation is logged) -/
+def checkReqs (P : Prog) (i : Nat) (st : St) : St :=
+  if (P.scens.getD (st.inst i).cls default).reqAlways then st.emit (.q i) else st
 
 /-- step (b) of `_step`: `self._elapsedTime >= self._timeLimitInSteps` -/
 def limitReached (cls : ScenCls) (inst : Inst) : Bool :=
@@ -222,33 +208,30 @@ def stepScen : Nat → Nat → St → St × Ret
   | 0, _, st => (st.fail .stuck, .abort)
   | n + 1, i, st =>
     let cls := P.scens.getD (st.inst i).cls default
-    let dyn := S.dynReqAsTemporal && i != 0
     -- (a) temporal requirements
-    match checkReqs P S i st with
-    | (st, true) => (st.fail .rejected, .abort)
-    | (st, false) =>
-      -- (b) time limit
-      if limitReached cls (st.inst i) then (stopScen n i st, .stopped) else
-      let st := st.modInst i fun x => { x with elapsed := x.elapsed + 1 }
-      -- (d) compose block
-      match (st.inst i).co with
-      | none => afterCompose n i cls dyn true st
-      | some s =>
-        match composeHandle n i (resume P.code (.comp i) st.time cf s) st with
-        | (st, .aborted) => (st, .abort)
-        | (st, .yielded .endScen _) => (stopScen n i st, .stopped)
-        | (st, .yielded .endSim _) => (stopScen n i st, .endSim)
-        | (st, .yielded (.acts _) s') =>
-          afterCompose n i cls dyn false (st.modInst i fun x => { x with co := some s' })
-        | (st, .done) =>
-          afterCompose n i cls dyn true (st.modInst i fun x => { x with co := none })
+    let st := checkReqs P i st
+    -- (b) time limit
+    if limitReached cls (st.inst i) then (stopScen n i st, .stopped) else
+    let st := st.modInst i fun x => { x with elapsed := x.elapsed + 1 }
+    -- (d) compose block
+    match (st.inst i).co with
+    | none => afterCompose n i cls true st
+    | some s =>
+      match composeHandle n i (resume P.code (.comp i) st.time cf s) st with
+      | (st, .aborted) => (st, .abort)
+      | (st, .yielded .endScen _) => (stopScen n i st, .stopped)
+      | (st, .yielded .endSim _) => (stopScen n i st, .endSim)
+      | (st, .yielded (.acts _) s') =>
+        afterCompose n i cls false (st.modInst i fun x => { x with co := some s' })
+      | (st, .done) =>
+        afterCompose n i cls true (st.modInst i fun x => { x with co := none })
 
-/-- the rest of `_step` after the compose block has run -/
-def afterCompose : Nat → Nat → ScenCls → Bool → Bool → St → St × Ret
-  | 0, _, _, _, _, st => (st.fail .stuck, .abort)
-  | n + 1, i, cls, dyn, composeDone, st =>
+/-- the rest of `_step` after the compose block has run: the scenario's `terminate when`
+    conditions (of the top-level scenario and of sub-scenarios alike) -/
+def afterCompose : Nat → Nat → ScenCls → Bool → St → St × Ret
+  | 0, _, _, _, st => (st.fail .stuck, .abort)
+  | n + 1, i, cls, composeDone, st =>
     if cls.compose.isSome && composeDone then (stopScen n i st, .stopped) else
-    if dyn then (st, .cont) else
     match evalTermWhen P cls.termWhen st with
     | (st, true) => (stopScen n i st, .stopped)
     | (st, false) => (st, .cont)
@@ -335,7 +318,9 @@ def runMonitors : Nat → Nat → St → St × MRet
         let st := if et then stopScen n i st else st
         (st, if sub != .none then sub else if et then .endScen else .none)
 
-/-- `for sub in self._subScenarios: subreason = sub._runMonitors(); …` -/
+/-- `for sub in self._subScenarios: subreason = sub._runMonitors(); …`: only an
+    `_EndSimulationAction` is handed up; a sub-scenario whose monitor executed `terminate` has
+    already been stopped by its own `_runMonitors` -/
 def monSubs : Nat → List Nat → MRet → St → St × MRet
   | 0, _, r, st => (st.fail .stuck, r)
   | _ + 1, [], r, st => (st, r)
@@ -343,10 +328,7 @@ def monSubs : Nat → List Nat → MRet → St → St × MRet
     match runMonitors n j st with
     | (st, rj) =>
       if st.abort.isSome then (st, r) else
-      monSubs n rest (match rj with
-        | .none => r
-        | .endSim => .endSim
-        | .endScen => if S.monTermPropagates then .endScen else r) st
+      monSubs n rest (if rj = .endSim then .endSim else r) st
 end
 
 /-- `allActions[agent] = actions` on an insertion-ordered dict -/
@@ -407,8 +389,57 @@ def evalTermSim : List Nat → St → St × Bool
     let st := st.emit (.cond .termSim c v)
     if v then (st, true) else evalTermSim rest st
 
-def recordEvs (t : Nat) : List Ev :=
-  (if t = 0 ∧ P.recInit then [Ev.recInit] else []) ++ (List.range P.recs).map Ev.recd ++ [.traj t]
+mutual
+/-- `DynamicScenario._checkSimulationTerminationConditions`: the scenario's own
+    `terminate simulation when` conditions, then those of its running sub-scenarios -/
+def termSimTree : Nat → Nat → St → St × Bool
+  | 0, _, st => (st.fail .stuck, false)
+  | n + 1, i, st =>
+    match evalTermSim P (P.scens.getD (st.inst i).cls default).termSimWhen st with
+    | (st, true) => (st, true)
+    | (st, false) => termSimList n (st.inst i).subs st
+
+def termSimList : Nat → List Nat → St → St × Bool
+  | 0, _, st => (st.fail .stuck, false)
+  | _ + 1, [], st => (st, false)
+  | n + 1, j :: rest, st =>
+    if (st.inst j).running then
+      match termSimTree n j st with
+      | (st, true) => (st, true)
+      | (st, false) => termSimList n rest st
+    else termSimList n rest st
+end
+
+/-- `dynamicScenario._checkSimulationTerminationConditions()` on the top-level scenario -/
+def termSimTop (fuel : Nat) (st : St) : St × Bool :=
+  match evalTermSim P P.termSimWhen st with
+  | (st, true) => (st, true)
+  | (st, false) => termSimList P fuel (st.inst 0).subs st
+
+mutual
+/-- `DynamicScenario._evaluateRecordedExprsAt(place, …)`: the scenario's own recorded
+    expressions (`f` selects the place), then those of every scenario in `_subScenarios`
+    (whether it is still running or not) -/
+def recTree (f : ScenCls → List Ev) : Nat → Nat → St → St
+  | 0, _, st => st.fail .stuck
+  | n + 1, i, st =>
+    recList f n (st.inst i).subs (st.emits (f (P.scens.getD (st.inst i).cls default)))
+
+def recList (f : ScenCls → List Ev) : Nat → List Nat → St → St
+  | 0, _, st => st.fail .stuck
+  | _ + 1, [], st => st
+  | n + 1, j :: rest, st => recList f n rest (recTree f n j st)
+end
+
+def recInitEvs (c : ScenCls) : List Ev := if c.recInit then [.recInit] else []
+def recEvs (c : ScenCls) : List Ev := c.recs.map .recd
+def recFinalEvs (c : ScenCls) : List Ev := if c.recFinal then [.recFinal] else []
+
+/-- `Simulation.recordCurrentState` -/
+def recordState (fuel : Nat) (st : St) : St :=
+  let st := if st.time = 0 then recTree P recInitEvs fuel 0 st else st
+  let st := recTree P recEvs fuel 0 st
+  st.emit (.traj st.time)
 
 variable (fuel : Nat) (sched : Nat → Nat → List Nat)
 
@@ -416,17 +447,17 @@ variable (fuel : Nat) (sched : Nat → Nat → List Nat)
 def runPhase (ph : Phase) (st : St) (lp : Loop) : St × Loop × Option Term :=
   match ph with
   | .scen =>
-    match stepScen P S cf fuel 0 st with
+    match stepScen P cf fuel 0 st with
     | (st, .abort) => (if st.abort.isSome then st else st.fail .error, lp, none)
     | (st, .cont) => (st, { lp with pending := none }, none)
     | (st, _) => (st, { lp with pending := some .scenarioComplete }, none)
-  | .record => (st.emits (recordEvs P st.time), lp, none)
+  | .record => (recordState P fuel st, lp, none)
   | .monitors =>
-    match runMonitors P S cf fuel 0 st with
+    match runMonitors P cf fuel 0 st with
     | (st, r) => (st, if r = .none then lp else { lp with pending := some .terminatedByMonitor }, none)
   | .retPending => (st, lp, lp.pending)
   | .termSimWhen =>
-    match evalTermSim P P.termSimWhen st with
+    match termSimTop P fuel st with
     | (st, true) => (st, lp, some .simulationTerminationCondition)
     | (st, false) => (st, lp, none)
   | .maxSteps => (st, lp, if P.maxSteps ≠ 0 ∧ P.maxSteps ≤ st.time then some .timeLimit else none)
@@ -445,7 +476,7 @@ def runPhase (ph : Phase) (st : St) (lp : Loop) : St × Loop × Option Term :=
 def runPhases : List Phase → St → Loop → St × Option Term
   | [], st, _ => (st, none)
   | ph :: rest, st, lp =>
-    match runPhase P S cf fuel sched ph st lp with
+    match runPhase P cf fuel sched ph st lp with
     | (st, _, some t) => (st, some t)
     | (st, lp, none) => if st.abort.isSome then (st, none) else runPhases rest st lp
 
@@ -453,7 +484,7 @@ def runPhases : List Phase → St → Loop → St × Option Term
 def runLoop : Nat → St → St × Option Term
   | 0, st => (st.fail .stuck, none)
   | n + 1, st =>
-    match runPhases P S cf fuel sched S.order st {} with
+    match runPhases P cf fuel sched S.order st {} with
     | (st, some t) => (st, some t)
     | (st, none) => if st.abort.isSome then (st, none) else runLoop n st
 
@@ -471,7 +502,7 @@ def stopAll : List Nat → St → St
 
 def finish (st : St) : St :=
   let st := stopAll fuel (List.range st.insts.length).reverse st
-  if st.abort.isSome then st else if P.recFinal then st.emit .recFinal else st
+  if st.abort.isSome then st else recTree P recFinalEvs fuel 0 st
 
 structure Result where
   log : List Ev
